@@ -227,7 +227,7 @@ def all_queries(n):
             yield X, Y, Z
 
 
-FAMS = ("int", "str", "tuple", "bigint", "frozenset")
+FAMS = C.Labels.FAMILIES
 
 
 def gen_cases(ctx):
@@ -248,7 +248,7 @@ def gen_cases(ctx):
     for g in C.enum_graphs(4, states4):
         if in_domain(g):
             i += 1
-            yield {"g": g, "src": "exh4", "fam": FAMS[i % 3]}
+            yield {"g": g, "src": "exh4", "fam": FAMS[i % len(FAMS)]}
             if tier == "thorough" or i % 8 == 0:
                 qs = list(all_queries(4))
                 for X, Y, Z in (qs if tier == "thorough" and i % 8 == 0 else rng.sample(qs, 4)):
@@ -268,7 +268,7 @@ def gen_cases(ctx):
             n5 = rng.choice((4, 5, 5))
             g5 = rand_moral_graph(rng, n5)
             for X, Y, Z in sep_queries(rng, n5, 3):
-                yield {"g": g5, "kind": "sep", "X": X, "Y": Y, "Z": Z, "src": "rnd-sep", "fam": FAMS[i % 3]}
+                yield {"g": g5, "kind": "sep", "X": X, "Y": Y, "Z": Z, "src": "rnd-sep", "fam": FAMS[i % len(FAMS)]}
 
 
 # ----------------------------------------------------------------------------- main
